@@ -432,13 +432,18 @@ def inline_new_helpers(repo, max_rounds: int = 3) -> List[str]:
                 for sub in list(ast.walk(st)):
                     if isinstance(sub, ast.Call) and sub is not call:
                         tq = repo.resolve_call(caller, sub)
-                        if tq in new_fns and tq != q and (_inline_expression_call(caller, st, sub, new_fns[tq]) or _hoist_call(caller, st, sub)):
+                        if tq in new_fns and tq != q and (_inline_expression_call(caller, st, sub, new_fns[tq]) or
+                                                          (not _is_generator(new_fns[tq].node) and _hoist_call(caller, st, sub))):
                             done.append(tq)
                             changed = True
                             break
         if not changed:
             break
     return sorted(set(done))
+
+
+def _is_generator(fn_node) -> bool:
+    return any(isinstance(n, (ast.Yield, ast.YieldFrom)) for n in _walk_no_nested(fn_node))
 
 
 def _callee_parts(callee_fi):
